@@ -116,7 +116,9 @@ def pairwise_solver(A,
 
     while len(levels) < max_levels and\
             int(levels[-1].A.shape[0]/get_blocksize(levels[-1].A)) > max_coarse:
-        _extend_hierarchy(levels, aggregate)
+        bottom = _extend_hierarchy(levels, aggregate)
+        if bottom:
+            break
 
     ml = MultilevelSolver(levels, **kwargs)
     change_smoothers(ml, presmoother, postsmoother)
@@ -139,6 +141,10 @@ def _extend_hierarchy(levels, aggregate):
     if issparse(P) and P.format == 'csr':
         # In this case, R will be CSC, which must be changed
         R = R.tocsr()
+
+    if P.shape[1] >= P.shape[0]:
+        # coarsening stalled: a further level would not be smaller
+        return True
 
     levels[-1].P = P  # unsmoothed prolongator
     levels[-1].R = R  # restriction operator
